@@ -826,3 +826,92 @@ Proof.
   intros [G1 _] [st Hb] K. apply aget_in in Hb. destruct Hb as [k' Hin]. rewrite Forall_forall in G1.
   apply (G1 _ Hin K).
 Qed.
+
+(* ---------- the limiter layer: a request is admitted iff every applicable limit admits ---------- *)
+Lemma bucket_admits_frame coin s s' t k n : bk s' k = bk s k -> s_d s' = s_d s ->
+  bucket_admits coin s' t k n = bucket_admits coin s t k n.
+Proof.
+  intros Hb Hd. unfold bucket_admits, bucket_by_key. unfold bk in Hb. rewrite Hb, Hd.
+  destruct (aget key_eqb k (s_b s)); auto. destruct (aget N.eqb (fst k) (s_d s)); auto.
+Qed.
+
+Lemma all_admit_frame s s' t n keys : forall coins, (forall k, In k keys -> bk s' k = bk s k) -> s_d s' = s_d s ->
+  all_admit s' t n coins keys = all_admit s t n coins keys.
+Proof.
+  induction keys as [|k r IH]; intros coins Hb Hd; cbn [all_admit]; auto.
+  rewrite (bucket_admits_frame _ s s') by (auto; apply Hb; left; auto). rewrite IH; auto. intros; apply Hb; right; auto.
+Qed.
+
+Lemma key_neq_eqb (a b : key) : a <> b -> key_eqb a b = false.
+Proof. intros H. destruct (key_eqb a b) eqn:E; auto. apply key_eqb_eq in E. contradiction. Qed.
+
+Lemma take_loop_all_admit todo : forall s t n coins done, NoDup todo ->
+  fst (fst (take_loop x_new x_allow s t n coins todo done)) = all_admit s t n coins todo.
+Proof.
+  induction todo as [|k r IH]; intros s t n coins done ND; cbn [take_loop all_admit]; auto.
+  inversion ND as [|? ? Hnin ND']; subst.
+  assert (F : forall k', In k' r -> bk (snd (bucket_by_key x_new s t k)) k' = bk s k').
+  { intros k' Hin. apply bbk_other. apply key_neq_eqb. intros ->. contradiction. }
+  pose proof (bbk_defaults s t k) as D. unfold bucket_admits.
+  destruct (bucket_by_key x_new s t k) as [[b|] s1]; cbn [fst snd] in *.
+  - destruct (x_allow (hd false coins) (fst b) t n) as [ok1 l'] eqn:EA. cbn [fst]. destruct ok1; cbn [andb fst]; auto.
+    rewrite IH by auto. apply all_admit_frame; auto.
+    intros k' Hin. rewrite bk_put, key_neq_eqb; auto. intros ->. contradiction.
+  - cbn [andb]. rewrite IH by auto. apply all_admit_frame; auto.
+Qed.
+
+Lemma req_keys_nodup ls q : NoDup (map l_name ls) -> NoDup (req_keys ls q).
+Proof.
+  unfold req_keys, limits_for. induction ls as [|a ls IH]; cbn [map filter]; intros ND; [constructor|].
+  inversion ND as [|? ? Hnin ND']; subst. destruct (applies q a); cbn [map]; auto.
+  constructor; auto. intros Hin. apply in_map_iff in Hin. destruct Hin as (l' & E & Hl').
+  apply filter_In in Hl'. destruct Hl' as [Hl' _]. apply Hnin. apply in_map_iff. exists l'. split; auto.
+  unfold key_of in E. inversion E; auto.
+Qed.
+
+Theorem request_admitted_iff_proved : forall ls q s t coins, NoDup (map l_name ls) ->
+  fst (fst (xexceeded s t coins ls q)) = negb (all_admit s t 1 coins (req_keys ls q)).
+Proof.
+  intros ls q s t coins ND. unfold xexceeded. pose proof (req_keys_nodup ls q ND) as NK.
+  destruct (req_keys ls q) as [|k r] eqn:E; [reflexivity|].
+  pose proof (take_loop_all_admit (k :: r) s t 1 coins [] NK) as H. unfold xtake, take.
+  destruct (take_loop x_new x_allow s t 1 coins (k :: r) []) as [[ok exc] s']. cbn [fst] in *. rewrite H. reflexivity.
+Qed.
+
+Lemma all_admit_strict s t n keys : all_admit s t n [] keys = forallb (fun k => bucket_admits false s t k n) keys.
+Proof. induction keys as [|k r IH]; cbn; auto. rewrite IH. reflexivity. Qed.
+
+Theorem request_admitted_iff_strict_proved : forall ls q s t, NoDup (map l_name ls) ->
+  (fst (fst (xexceeded s t [] ls q)) = false <->
+   forall l, In l ls -> applies q l = true -> bucket_admits false s t (key_of q l) 1 = true).
+Proof.
+  intros ls q s t ND. rewrite (request_admitted_iff_proved ls q s t [] ND), all_admit_strict, negb_false_iff, forallb_forall.
+  unfold req_keys, limits_for. split.
+  - intros H l Hin Ha. apply H. apply in_map. apply filter_In; auto.
+  - intros H k Hk. apply in_map_iff in Hk. destruct Hk as (l & <- & Hl). apply filter_In in Hl. destruct Hl. auto.
+Qed.
+
+Lemma not_in_existsb k keys : ~ In k keys -> existsb (key_eqb k) keys = false.
+Proof.
+  induction keys as [|x r IH]; cbn; auto. intros H. rewrite IH by tauto. rewrite key_neq_eqb; auto.
+Qed.
+
+(* buckets of limits that do not apply - and every other bucket of those that do - are untouched *)
+Theorem non_applicable_untouched_proved : forall ls q s t coins k,
+  ~ In k (req_keys ls q) -> bk (snd (xexceeded s t coins ls q)) k = bk s k.
+Proof.
+  intros ls q s t coins k Hnin. unfold xexceeded. destruct (req_keys ls q) as [|k0 r] eqn:E; [reflexivity|].
+  unfold xtake, take. destruct (take_loop x_new x_allow s t 1 coins (k0 :: r) []) as [[ok exc] s'] eqn:ET. cbn [snd].
+  eapply take_loop_frame; eauto. apply not_in_existsb; auto.
+Qed.
+
+Theorem refused_request_consumes_nothing_proved : forall ls q s t coins exc s' k l,
+  xexceeded s t coins ls q = (true, exc, s') ->
+  has_bucket s k l -> xk l = XNorm -> lim_ok l -> xlast l <= t ->
+  exists l', has_bucket s' k l' /\ lim_equiv t l' l.
+Proof.
+  intros ls q s t coins exc s' k l E Hb K OK L. unfold xexceeded in E.
+  destruct (req_keys ls q) as [|k0 r]; [discriminate|].
+  destruct (xtake s t coins (k0 :: r) 1) as [[ok exc1] s1] eqn:ET. inversion E; subst. destruct ok; [discriminate|].
+  exact (all_or_nothing_proved s t coins (k0 :: r) 1 false exc s' k l ET ltac:(lia) Hb K OK L).
+Qed.
